@@ -252,6 +252,33 @@ def classes_and_prosody(chk, cc):
                 nw = 'raised %s: %s' % (type(ex).__name__, ex)
             if len(pro) != len(toks) or nw != len(toks):
                 fails.append(('prosodic_string(%r) = %r, prosodic_weights of it: %r - not one element per token' % (toks, pro, nw),))
+            elif rng.random() < 0.5:
+                # the same characters segmented differently, in the same process (other tokeniser options; a further split of one
+                # token): one element per token of THIS segmentation
+                alts = []
+                for okw in (dict(merge_vowels=False), dict(semi_diacritics='hs'), dict(merge_geminates=False), dict(expand_nasals=True)):
+                    try:
+                        t2 = ipa2tokens(s, **okw)
+                    except Exception:  # noqa
+                        continue
+                    if list(t2) != list(toks) and ''.join(t2) == ''.join(toks):
+                        alts.append((okw, list(t2)))
+                long_ = [i_ for i_, t_ in enumerate(toks) if len(t_) > 1 and all(ch in M.converter for ch in t_)]
+                if long_:
+                    i_ = rng.choice(long_)
+                    alts.append(({'split by hand': i_}, list(toks[:i_]) + list(toks[i_]) + list(toks[i_ + 1:])))
+                for okw, t2 in alts[:2]:
+                    try:
+                        p2 = prosodic_string(t2)
+                        n2 = len(prosodic_weights(p2))
+                    except ValueError:
+                        continue
+                    except Exception as ex:  # noqa
+                        p2, n2 = 'raised %s' % type(ex).__name__, -1
+                    chk.hist['prosodic_string: a second segmentation of the same characters in one process'] += 1
+                    if len(p2) != len(t2) or n2 != len(t2):
+                        fails.append(('prosodic_string(%r) = %r with %r weights after prosodic_string(%r) in the same process (%r): not one element per token'
+                                      % (t2, p2, n2, toks, okw),))
             # aligned class string -> tokens
             alm = []
             for c in cls:
